@@ -198,6 +198,10 @@ func (c *Cond) Wait() {
 	}
 	s := S
 	c.sync()
+	// A scheduling point before the waiter is registered: operations of other threads that do not
+	// need c.L (channel sends, a Signal issued without the lock, atomics) can fall between the
+	// caller's test of its condition and this Wait - the classic lost wake-up.
+	s.yield(&op{kind: "condwait-enter", obj: c.id, enabled: func() bool { return true }})
 	w := &condWaiter{t: s.cur}
 	c.waiters = append(c.waiters, w)
 	c.L.Unlock()
